@@ -242,6 +242,9 @@ def main():
               % (TRUNCATING_AS_CODED, weak, wits[:4]))
         if not any(k.get("symptom") == "ranking" for k, _, _ in V.new) and not V.hit:
             machinery.append("the comparator model admits unranked arrangements but the real HTML report ranked every witness correctly")
+    # ---- beyond the property: the command-line tool
+    import check_c13_cli
+    clicov = check_c13_cli.run(tier, V, machinery)
     rc = V.finish()
     for m in machinery:
         print("MACHINERY: " + m[:600])
@@ -253,7 +256,7 @@ def main():
                 "does not hold) x reports {recording, DataReport, HTMLReport} x W; comparator witnesses from TLC rendered by the "
                 "real HTMLReport; every scenario is non-trivial" % (len(combos), len(scs)),
         "protocol_logs_validated": ntr, "protocol_logs_accepted": nacc, "comparator_weak_order": cmp_ok, "comparator_witnesses": len(wits),
-        "model_reaches_data_race": model_race, "race_detector_runs": len(rq), "exhaustive": False, "known_findings_hit": V.hit},
+        "model_reaches_data_race": model_race, "race_detector_runs": len(rq), "exhaustive": False, "known_findings_hit": V.hit, **clicov},
         time.time() - t0, len(V.new),
         assumptions=["stub strategies (buy on the first snapshot, sell on a scripted one) stand for arbitrary strategies: the backtest "
                      "treats a strategy as an opaque function of the snapshots",
